@@ -2,9 +2,12 @@
 # usage: ingest.sh <PROP>   -- confirms /tmp/seedwt/<PROP>/seed_{a,b} into /verif/seeded/<PROP>{a,b} and runs the check on each
 cd "$(dirname "$0")"
 p=$1
-for v in a b; do
+# optional second and third argument: the suffixes to store seed_a / seed_b under (round 2: c d)
+sa=${2:-a}; sb=${3:-b}
+for pair in a:$sa b:$sb; do
+  v=${pair%%:*}; w=${pair##*:}
   d=/tmp/seedwt/$p/seed_$v
-  [ -f $d/patch.diff ] || { echo "$p$v: no patch"; continue; }
-  ./confirmseed.sh $d $p$v
-  if grep -q '"kept": true' ../seeded/$p$v/meta.json 2>/dev/null; then ./runseed.sh ../seeded/$p$v $p; else echo "$p$v not kept (see /tmp/cw-$p$v.log)"; fi
+  [ -f $d/patch.diff ] || { echo "$p$w: no patch"; continue; }
+  ./confirmseed.sh $d $p$w
+  if grep -q '"kept": true' ../seeded/$p$w/meta.json 2>/dev/null; then ./runseed.sh ../seeded/$p$w $p; else echo "$p$w not kept (see /tmp/cw-$p$w.log)"; fi
 done
